@@ -287,9 +287,57 @@ Section Gen.
   Proof.
     induction fuel as [|k IH]; intros m r r' H; [discriminate|].
     cbn [run_loop]. destruct (m_instr m) eqn:Ei.
-    - intros E; inversion E; subst. left; exact H.
+    - destruct (m_calls m); [intros E; inversion E; subst; left; exact H|apply IH; exact H].
     - pose proof (g_step l g m r H) as Q.
       destruct (step l g m r) as [[m1 r1|r1]| | |]; cbn [bind]; try discriminate.
+      + apply IH; exact Q.
+      + intros E; inversion E; subst. exact Q.
+  Qed.
+
+  (* the CFF2 handler: vsindex and blend leave the reader alone, every other operator is the Type 2 one *)
+  Lemma g_apply_op2 vs l g k m r esc op : P r ->
+    match apply_op2 vs l g k m r esc op with
+    | Ok (Continue _ r', _) => P r'
+    | Ok (Stop r', _) => closed_from r'
+    | _ => True
+    end.
+  Proof.
+    intros H. unfold apply_op2.
+    destruct (negb esc && ((op =? 11) || (op =? 14))); [exact I|].
+    destruct (negb esc && (op =? 15)).
+    { destruct (rev (m_args m)); [exact I|]. destruct (set_vs vs k _); cbn [bind]; try exact I. exact H. }
+    destruct (negb esc && (op =? 16)).
+    { destruct (rev (m_args m)); [exact I|]. destruct ((_ <? 0) || _); [exact I|exact H]. }
+    pose proof (g_apply_op l g m r esc op H) as Q.
+    destruct (apply_op l g m r esc op) as [[m' r'|r']| | |]; cbn [bind]; try exact I; exact Q.
+  Qed.
+
+  Lemma g_step2 vs l g k m r : P r ->
+    match step2 vs l g k m r with
+    | Ok (Continue _ r', _) => P r'
+    | Ok (Stop r', _) => P r' \/ closed_from r'
+    | _ => True
+    end.
+  Proof.
+    intros H. unfold step2.
+    destruct (parse_number (m_instr m)) as [[[v rest]| | |]|]; try exact I.
+    - destruct (top m =? ARG_STACK_SIZE); [exact I|exact H].
+    - destruct (m_instr m) as [|b rest]; [left; exact H|].
+      destruct (b =? 12).
+      + destruct rest as [|b2 rest2]; [exact I|].
+        pose proof (g_apply_op2 vs l g k (mkM rest2 (m_calls m) (m_args m)) r true b2 H) as Q.
+        destruct (apply_op2 _ _ _ _ _ _ _ _) as [[[m' r'|r'] k']| | |]; try exact I; [exact Q|right; exact Q].
+      + pose proof (g_apply_op2 vs l g k (mkM rest (m_calls m) (m_args m)) r false b H) as Q.
+        destruct (apply_op2 _ _ _ _ _ _ _ _) as [[[m' r'|r'] k']| | |]; try exact I; [exact Q|right; exact Q].
+  Qed.
+
+  Lemma g_run2 fuel vs l g : forall k m r r', P r -> run_loop2 fuel vs l g k m r = Ok r' -> P r' \/ closed_from r'.
+  Proof.
+    induction fuel as [|f IH]; intros k m r r' H; [discriminate|].
+    cbn [run_loop2]. destruct (m_instr m) eqn:Ei.
+    - destruct (m_calls m); [intros E; inversion E; subst; left; exact H|apply IH; exact H].
+    - pose proof (g_step2 vs l g k m r H) as Q.
+      destruct (step2 vs l g k m r) as [[[m1 r1|r1] k1]| | |]; cbn [bind]; try discriminate.
       + apply IH; exact Q.
       + intros E; inversion E; subst. exact Q.
   Qed.
@@ -313,4 +361,62 @@ Proof.
   destruct (g_run b_inv rd_line_binv rd_curve_binv rd_move_binv b_inv_stems fuel l g _ _ _ b_inv_init E) as [Hb|[r0 [Hb ->]]].
   - apply b_inv_encloses; assumption.
   - apply close_path_encloses; assumption.
+Qed.
+
+(* CFF2: the same two facts for cff2CharstringHandler at the default coordinates *)
+Lemma load_glyph2_bounds_lemma fuel cs l g vs dvs segs b :
+  load_glyph2 fuel cs l g vs dvs = Ok (segs, b) -> forall p, In p (drawn_all segs) -> in_b b p.
+Proof.
+  unfold load_glyph2. destruct (run_loop2 fuel vs l g (init_vs vs dvs) (mkM cs [] []) rd_init) as [r| | |] eqn:E; cbn [bind]; try discriminate.
+  intros H; inversion H; subst. intros p Hin. apply in_drawn_all_rev in Hin.
+  destruct (g_run2 b_inv rd_line_binv rd_curve_binv rd_move_binv b_inv_stems fuel vs l g _ _ _ _ b_inv_init E) as [Hb|[r0 [Hb ->]]].
+  - apply b_inv_encloses; assumption.
+  - apply close_path_encloses; assumption.
+Qed.
+
+Lemma path_inv_stems r v h s hm : path_inv r ->
+  path_inv (mkRd (r_segs r) (r_bounds r) v h s (r_cur r) (r_first r) (r_open r) hm (r_seen_pt r)).
+Proof. intros H. exact H. Qed.
+
+Lemma load_glyph2_path_lemma fuel cs l g vs dvs segs b :
+  load_glyph2 fuel cs l g vs dvs = Ok (segs, b) -> exists f c, wf_rev (rev segs) = Some (f, c).
+Proof.
+  unfold load_glyph2. destruct (run_loop2 fuel vs l g (init_vs vs dvs) (mkM cs [] []) rd_init) as [r| | |] eqn:E; cbn [bind]; try discriminate.
+  intros H; inversion H; subst. rewrite rev_involutive.
+  assert (Hi : path_inv rd_init) by reflexivity.
+  destruct (g_run2 path_inv rd_line_inv rd_curve_inv rd_move_inv path_inv_stems fuel vs l g _ _ _ _ Hi E) as [Hb|[r0 [Hb ->]]].
+  - eexists; eexists; exact Hb.
+  - destruct (close_path_closed r0 Hb) as [f Hf]. exists f, f. exact Hf.
+Qed.
+
+(* no panic *)
+Lemma apply_op2_no_panic vs l g k m r esc op : no_panic (apply_op2 vs l g k m r esc op).
+Proof.
+  unfold apply_op2.
+  destruct (negb esc && ((op =? 11) || (op =? 14))); [exact I|].
+  destruct (negb esc && (op =? 15)).
+  { destruct (rev (m_args m)); [exact I|]. apply no_panic_bind; [|intros; exact I].
+    unfold set_vs. destruct vs; [exact I|]. destruct ((_ <? 0) || _); [exact I|]. destruct (nth _ _ _) as [k' [|]]; exact I. }
+  destruct (negb esc && (op =? 16)).
+  { destruct (rev (m_args m)); [exact I|]. destruct ((_ <? 0) || _); exact I. }
+  apply no_panic_bind; [apply apply_op_no_panic|intros; exact I].
+Qed.
+
+Lemma step2_no_panic vs l g k m r : no_panic (step2 vs l g k m r).
+Proof.
+  unfold step2. pose proof (parse_number_no_panic (m_instr m)) as Hp.
+  destruct (parse_number (m_instr m)) as [[[v rest]| | |]|]; try exact I; try contradiction.
+  - destruct (top m =? ARG_STACK_SIZE); exact I.
+  - destruct (m_instr m) as [|b rest]; [exact I|].
+    destruct (b =? 12); [destruct rest; [exact I|]|]; apply apply_op2_no_panic.
+Qed.
+
+Lemma load_glyph2_no_panic_lemma fuel cs l g vs dvs : no_panic (load_glyph2 fuel cs l g vs dvs).
+Proof.
+  unfold load_glyph2. apply no_panic_bind; [|intros; exact I].
+  generalize (init_vs vs dvs) (mkM cs [] []) rd_init.
+  induction fuel as [|f IH]; intros k m r; [exact I|].
+  cbn [run_loop2]. destruct (m_instr m); [destruct (m_calls m); [exact I|apply IH]|].
+  apply no_panic_bind; [apply step2_no_panic|].
+  intros [[m' r'|r'] k'] _; [apply IH|exact I].
 Qed.
